@@ -15,70 +15,91 @@ Proof. exact step_limit_only_lowers. Qed.
 Print Assumptions C05_step_limit_only_lowers.
 
 (** every state after pre-step keeps step length <= the physics limit of pre-step *)
-Theorem C05_limit_only_shrinks : forall i (s : sim R),
+Theorem C05_limit_only_shrinks : forall fixed i (s : sim R),
   mstat s <> Errored ->
-  Forall (fun x => mstep x <= in_phys_step i) (tl (step_trace i s)).
+  Forall (fun x => mstep x <= in_phys_step i) (tl (step_trace fixed i s)).
 Proof. exact limit_only_shrinks. Qed.
 Print Assumptions C05_limit_only_shrinks.
 
-Theorem C05_status_monotone : forall i (s : sim R),
+Theorem C05_status_monotone : forall fixed i (s : sim R),
   (mstat s = Initializing \/ mstat s = Alive \/ mstat s = Errored) ->
-  mono_chain (step_trace i s).
+  mono_chain (step_trace fixed i s).
 Proof. exact status_monotone. Qed.
 Print Assumptions C05_status_monotone.
 
-Theorem C05_steps_join : forall ins (s : sim R), joined (run_steps ins s).
+Theorem C05_steps_join : forall fixed ins (s : sim R), joined (run_steps fixed ins s).
 Proof. exact steps_join. Qed.
 Print Assumptions C05_steps_join.
 
-Theorem C05_time_nondecreasing : forall i (s : sim R),
+Theorem C05_time_nondecreasing : forall fixed i (s : sim R),
   0 <= in_phys_step i -> 0 <= in_next i ->
-  let '(pre, _, s1) := one_step i s in ptime pre <= mtime s1.
+  let '(pre, _, s1) := one_step fixed i s in ptime pre <= mtime s1.
 Proof. exact time_nondecreasing. Qed.
 Print Assumptions C05_time_nondecreasing.
 
-Theorem C05_energy_nonincreasing : forall i (s : sim R),
+Theorem C05_energy_nonincreasing : forall fixed i (s : sim R),
   0 <= mE s -> 0 <= in_eloss i <= mE s ->
   0 <= iE (in_inter i) <= mE (along_step_act i (pre_step i s)) ->
-  let '(pre, _, s1) := one_step i s in mE s1 <= pE pre /\ 0 <= mE s1.
+  let '(pre, _, s1) := one_step fixed i s in mE s1 <= pE pre /\ 0 <= mE s1.
 Proof. exact energy_nonincreasing. Qed.
 Print Assumptions C05_energy_nonincreasing.
 
-(** holds whenever the interaction did not fail to allocate; see the refutation below *)
-Theorem C05_step_positive_or_stopped_partial : forall i (s : sim R),
+(** full strength for the repaired failure branch ([fixed = true]: the branch only sets
+    the post-step action) *)
+Theorem C05_step_positive_or_stopped : forall i (s : sim R),
+  (mstat s = Initializing \/ mstat s = Alive) ->
+  0 < in_next i ->
+  (0 < in_phys_step i \/ (in_phys_step i = 0 /\ mE s = 0)) ->
+  let '(pre, _, s1) := one_step true i s in
+  0 < mstep s1 \/ (mstep s1 = 0 /\ pE pre = 0).
+Proof. intros i s Hs. apply step_positive_or_stopped; auto. Qed.
+Print Assumptions C05_step_positive_or_stopped.
+
+(** the branch as it was when finding F5 was made ([fixed = false]): only when the
+    interaction did not fail to allocate; see the refutation below *)
+Theorem C05_step_positive_or_stopped_old_partial : forall i (s : sim R),
   (mstat s = Initializing \/ mstat s = Alive) ->
   iact (in_inter i) <> IFailed ->
   0 < in_next i ->
   (0 < in_phys_step i \/ (in_phys_step i = 0 /\ mE s = 0)) ->
-  let '(pre, _, s1) := one_step i s in
+  let '(pre, _, s1) := one_step false i s in
   0 < mstep s1 \/ (mstep s1 = 0 /\ pE pre = 0).
-Proof. exact step_positive_or_stopped. Qed.
-Print Assumptions C05_step_positive_or_stopped_partial.
+Proof. intros i s Hs Hf. apply step_positive_or_stopped; auto. Qed.
+Print Assumptions C05_step_positive_or_stopped_old_partial.
 
-Theorem C05_volume_changes_only_at_boundary : forall i (s : sim R),
-  let '(pre, _, s1) := one_step i s in
+Theorem C05_volume_changes_only_at_boundary : forall fixed i (s : sim R),
+  let '(pre, _, s1) := one_step fixed i s in
   pvol pre <> mvol s1 -> mpost s1 = ABoundary.
 Proof. exact volume_changes_only_at_boundary. Qed.
 Print Assumptions C05_volume_changes_only_at_boundary.
 
-(** holds whenever the interaction did not fail to allocate *)
-Theorem C05_step_ge_displacement_partial : forall i (s : sim R),
+(** full strength for the repaired failure branch *)
+Theorem C05_step_ge_displacement : forall i (s : sim R),
+  (mstat s = Initializing \/ mstat s = Alive) ->
+  dot (mdir s) (mdir s) = 1 -> 0 < in_next i -> 0 <= in_phys_step i ->
+  let '(pre, _, s1) := one_step true i s in
+  distance (ppos pre) (mpos s1) <= mstep s1.
+Proof. intros i s Hs. apply step_ge_displacement; auto. Qed.
+Print Assumptions C05_step_ge_displacement.
+
+Theorem C05_step_ge_displacement_old_partial : forall i (s : sim R),
   (mstat s = Initializing \/ mstat s = Alive) ->
   iact (in_inter i) <> IFailed ->
   dot (mdir s) (mdir s) = 1 -> 0 < in_next i -> 0 <= in_phys_step i ->
-  let '(pre, _, s1) := one_step i s in
+  let '(pre, _, s1) := one_step false i s in
   distance (ppos pre) (mpos s1) <= mstep s1.
-Proof. exact step_ge_displacement. Qed.
-Print Assumptions C05_step_ge_displacement_partial.
+Proof. intros i s Hs Hf. apply step_ge_displacement; auto. Qed.
+Print Assumptions C05_step_ge_displacement_old_partial.
 
-(** the faithful model of InteractionApplier's allocation-failure branch REFUTES
+(** the faithful model of InteractionApplier's OLD allocation-failure branch
+    ([sim.step_limit({0, failure})], [fixed = false]) REFUTES
     "step length >= displacement" and "step length positive unless stopped":
     the track has moved, is alive with E > 0, and its step length reads 0 (F5) *)
 Theorem C05_step_ge_displacement_refuted :
   exists (i : sinput R) (s : sim R),
     mstat s = Alive /\ dot (mdir s) (mdir s) = 1 /\ 0 < in_next i /\ 0 < in_phys_step i
     /\ 0 < mE s /\ iact (in_inter i) = IFailed
-    /\ let '(pre, _, s1) := one_step i s in
+    /\ let '(pre, _, s1) := one_step false i s in
        mstep s1 = 0 /\ mstep s1 < distance (ppos pre) (mpos s1) /\ 0 < pE pre
        /\ mstat s1 = Alive.
 Proof. exact step_ge_displacement_refuted. Qed.
